@@ -55,6 +55,8 @@ def cases(rng, tier):
         yield rvgen.chain_case(rng, "single", trace=16, run=100)
     for i in range(n // 6):
         yield rvgen.ecall_case(rng, "single", trace=20, run=100)
+    for i in range(n // 10):
+        yield rvgen.x0_dest_case(rng, "single", trace=12, run=100)
 
 
 def nontrivial(c):
